@@ -162,9 +162,9 @@ func connCases(o hx.Opts, emit func(string)) {
 		emit(fmt.Sprintf("stack=%s cap=3 hist=%s", st, strings.Join([]string{honest("-", 0), honest("-", 1), honest("-", 0), honest("-", 1)}, ",")))
 	}
 	r := hx.NewRand(o.Seed + 77)
-	n := 150 * o.Scale
+	n := 1500 * o.Scale
 	if o.Tier == "thorough" {
-		n = 4000 * o.Scale
+		n = 40000 * o.Scale
 	}
 	for i := 0; i < n; i++ {
 		st := "tlcp"
